@@ -151,7 +151,7 @@ func (s *Service) handleSubmitSyncCommitteeMessagesError(ctx context.Context,
 				s.log.Trace().Str("provider", provider).Int("index", resp.Failures[i].Index).Str("msg", resp.Failures[i].Message).Msg("Real lighthouse error")
 			}
 		}
-		if len(resp.Failures) == allowedFailures {
+		if len(resp.Failures) > 0 && len(resp.Failures) == allowedFailures {
 			s.log.Trace().Str("provider", provider).Msg("Errors from node are allowable; continuing")
 			return nil
 		}
@@ -170,7 +170,7 @@ func (s *Service) handleSubmitSyncCommitteeMessagesError(ctx context.Context,
 				s.log.Trace().Str("provider", provider).Str("index", resp.Failures[i].Index).Str("msg", resp.Failures[i].Message).Msg("Real teku error")
 			}
 		}
-		if len(resp.Failures) == allowedFailures {
+		if len(resp.Failures) > 0 && len(resp.Failures) == allowedFailures {
 			s.log.Trace().Str("provider", provider).Msg("Errors from Lighthouse node are allowable; continuing")
 			return nil
 		}
